@@ -4,7 +4,8 @@ from .sysmodel import letters, PALETTES, PH2, _r
 
 INPUT_OPTS = [("S", "live"), ("S", "zero"), ("S", "inact"),
               ("SC", "live"), ("SC", "zero"), ("SC", "inact-src"), ("SC", "inact-reg"),
-              ("SH", "live"), ("SH", "inact-reg")]
+              ("SH", "live"), ("SH", "inact-reg"),
+              ("SL", "live"), ("SL", "starved")]  # own source + LinReg; 'starved': the source is below the drop-out voltage, the regulator outputs 0 V without being "off"
 
 
 def mux_spec(inputs, pal=0, rs_list=False, rails=False, by_rail=False, below="std", own_loads=True, pol=1, order=None, mux_pc=None):
@@ -17,7 +18,16 @@ def mux_spec(inputs, pal=0, rs_list=False, rails=False, by_rail=False, below="st
     if shared:
         comps.append(dict(n="S0", k="Source", a=dict(vo=_r(V * 1.1), rs=0.05 if pol > 0 else 0.0), p=[], g="", r="", pc=None, lim=None))
     for j, (t, st) in enumerate(inputs, 1):
-        if t in ("S", "SC"):
+        if t == "SL":
+            kind, args = L["LRc"]
+            a = copy.deepcopy(args)
+            a["vo"] = _r(a["vo"] * pol)
+            vo = _r(V * (1.0 + 0.07 * j)) if st == "live" else _r(0.5 * a["vdrop"] * pol)
+            sn = "S%d" % j
+            comps.append(dict(n=sn, k="Source", a=dict(vo=vo, rs=0.0), p=[], g="", r="", pc=None, lim=None))
+            end = "G%d" % j
+            comps.append(dict(n=end, k=kind, a=a, p=[sn], g="", r="RG%d" % j if rails else "", pc=None, lim=None))
+        elif t in ("S", "SC"):
             vo = 0.0 if st == "zero" else _r(V * (1.0 + 0.07 * j))
             sn = "S%d" % j
             comps.append(dict(n=sn, k="Source", a=dict(vo=vo, rs=_r(0.02 * j) if pol > 0 else 0.0), p=[], g="", r="RS%d" % j if rails and t == "S" else "",
@@ -66,7 +76,7 @@ def mux_spec(inputs, pal=0, rs_list=False, rails=False, by_rail=False, below="st
 
 def live_in_phase(inp, ph):
     t, st = inp
-    if st == "zero":
+    if st in ("zero", "starved"):
         return False
     if st.startswith("inact"):
         return ph == "a"
